@@ -2,6 +2,7 @@ package engines
 
 import (
 	"fmt"
+	"go/token"
 	"go/types"
 	"sort"
 	"strings"
@@ -21,7 +22,7 @@ func C12(c *Ctx) {
 	r.Rule("C12.P1.announcedValueUsed", "in loadAllocations and handleRemoteChange every call that binds a subscriber in the in-memory allocator takes the prefix parsed from the stored/announced record", 4)
 	r.Rule("C12.P2.storeMemoryAgreement", "a failed store write rolls the in-memory acquire back; a release removes the store record before freeing memory; both halves run under one hold of the allocator's lock", 9)
 	r.Rule("C12.P3.serialisation", "MarshalJSON and UnmarshalJSON of an allocator use the same field set (same JSON keys and types) and UnmarshalJSON assigns every field that query methods read", 6)
-	r.Rule("C12.P4.applyResultExamined", "the error returned by applying a stored or announced record is examined (a conflicting record is not silently ignored)", 2)
+	r.Rule("C12.P4.applyResultExamined", "the error returned by applying a stored or announced record is acted on (logged, propagated or resolved): a conflicting record is not silently ignored — an error branch that merely continues counts as ignoring", 2)
 	r.Rule("C12.P5.moveEvictsReverse", "re-binding a subscriber to a different prefix removes the old prefix's reverse-index entry", 2)
 
 	const pkg = "pkg/allocator"
@@ -56,6 +57,30 @@ func C12(c *Ctx) {
 				}
 			}
 		})
+		// through joins: a phi whose incoming values are the parsed prefix or nil (the helper's failure return)
+		for changed := true; changed; {
+			changed = false
+			flow.Instrs(f, func(in ssa.Instruction) {
+				phi, ok := in.(*ssa.Phi)
+				if !ok || parsed[phi] {
+					return
+				}
+				some := false
+				for _, e := range phi.Edges {
+					if k, isK := e.(*ssa.Const); isK && k.IsNil() {
+						continue
+					}
+					if !parsed[e] {
+						return
+					}
+					some = true
+				}
+				if some {
+					parsed[phi] = true
+					changed = true
+				}
+			})
+		}
 		n := 0
 		for _, call := range flow.Calls(f) {
 			name, ok := binders(call)
@@ -79,10 +104,41 @@ func C12(c *Ctx) {
 				"the subscriber is bound by "+name+" without the prefix recorded in the store: the allocator picks its own (first-free) address, so after a restart or on a peer the subscriber maps to a different address than the record says")
 			// P4
 			if cv, isVal := call.(*ssa.Call); isVal && strings.HasSuffix(name, "SetAllocation") {
+				// "examined" means acted on: an error branch that only continues or returns is the same behaviour as
+				// discarding the result, so both forms get the same verdict
 				examined := false
 				for _, rf := range *cv.Referrers() {
-					if _, dbg := rf.(*ssa.DebugRef); !dbg {
-						examined = true
+					cmp, isCmp := rf.(*ssa.BinOp)
+					if !isCmp || cmp.Op != token.NEQ {
+						if _, isRet := rf.(*ssa.Return); isRet {
+							examined = true // propagated to the caller
+						}
+						continue
+					}
+					for _, u := range *cmp.Referrers() {
+						ifi, isIf := u.(*ssa.If)
+						if !isIf {
+							continue
+						}
+						tb := ifi.Block().Succs[0]
+						if len(tb.Preds) != 1 {
+							continue
+						}
+						for _, b := range f.Blocks {
+							if !tb.Dominates(b) {
+								continue
+							}
+							for _, in := range b.Instrs {
+								switch x := in.(type) {
+								case *ssa.Call, *ssa.Go, *ssa.Store, *ssa.MapUpdate, *ssa.Send:
+									examined = true
+								case *ssa.Return:
+									if len(x.Results) > 0 {
+										examined = true
+									}
+								}
+							}
+						}
 					}
 				}
 				r.Check("C12.P4.applyResultExamined", load.ShortFunc(f), "result of "+name, c.P.Pos(instrPos(call)), examined,
